@@ -156,6 +156,39 @@ def main():
                 except Exception as e:  # noqa
                     direct.append({"law": "a dataset opened with a constraint in its URL can be read through its session",
                                    "url_constraint": ce, "session": mk.__name__, "error": repr(e)[:300]})
+        # (2d') copies of an array proxy (copy, deepcopy, pickle round trip - what dask or multiprocessing do with it): reading the
+        # copy still goes out with the session's credentials, never through a fresh anonymous session
+        import copy as _copy
+        import pickle as _pickle
+        for how, dup in (("copy.copy", _copy.copy), ("copy.deepcopy", _copy.deepcopy),
+                         ("pickle", lambda o: _pickle.loads(_pickle.dumps(o)))):
+            sess8, ad8 = TR.plain_session(app)
+            try:
+                ds8 = open_url(TR.BASE + "/d", session=sess8, protocol="dap2")
+                proxies = [ds8["x"].data, ds8["g"].array.data if hasattr(ds8["g"], "array") else ds8["g"]["a"].data]
+            except Exception as e:  # noqa
+                direct.append({"law": "a dataset can be opened through its session", "error": repr(e)[:300]})
+                continue
+            for prox in proxies:
+                try:
+                    twin = dup(prox)
+                except Exception:
+                    continue          # (an object that cannot be copied that way makes no request at all)
+                created.clear()
+                del ad8.anonymous[:]
+                r.count(("proxy-copy", how, type(prox).__name__))
+                try:
+                    got8 = np.asarray(twin[...])
+                    ok8 = np.array_equal(got8, np.asarray(prox[...]))
+                    err8 = None
+                except Exception as e:  # noqa
+                    ok8, err8 = False, repr(e)[:200]
+                extra = [x for x in created if x is not sess8]
+                if ad8.anonymous or extra or not ok8:
+                    direct.append({"law": "a copy of a variable's proxy reads through the session the dataset was opened with (same "
+                                          "credentials), not through a fresh anonymous session", "copied_with": how,
+                                   "requests_without_the_session_header": ad8.anonymous[:3], "other_sessions_created": len(extra),
+                                   "error": err8})
         # (2e) a server that answers with redirections: every hop is made by the dataset's session
         class Redirecting:
             def __init__(self, inner):
